@@ -44,6 +44,13 @@ func joinOrDash(xs []string) string {
 }
 
 func runFwd(catch bool, name string, vals []string) (line string, kind string) {
+	return runFwdQ(catch, query.Query{Name: name}, vals)
+}
+
+// runFwdQ: as runFwd for a query value (fwdq: the query the proxy builds from a wire payload,
+// parse error ignored exactly as proxy/udp.go and tcp.go do).
+func runFwdQ(catch bool, qv query.Query, vals []string) (line string, kind string) {
+	name := qv.Name
 	defer func() {
 		if x := recover(); x != nil {
 			line, kind = fmt.Sprintf("PANIC %v", x), "panic"
@@ -84,7 +91,7 @@ func runFwd(catch bool, name string, vals []string) (line string, kind string) {
 			}
 		}
 	}
-	n, _, err := fw.Resolve(context.Background(), query.Query{Name: name}, nil)
+	n, _, err := fw.Resolve(context.Background(), qv, nil)
 	ret := strconv.Itoa(n)
 	if err != nil {
 		if n == -1 && strings.HasSuffix(err.Error(), "no forwarder defined") {
@@ -100,7 +107,7 @@ func runFwd(catch bool, name string, vals []string) (line string, kind string) {
 	// the same query with every upstream down: still exactly the chosen upstream, once, and its
 	// error handed back (an internal name must not fail over to the next matching entry)
 	calls, fail = nil, true
-	_, _, ferr := fw.Resolve(context.Background(), query.Query{Name: name}, nil)
+	_, _, ferr := fw.Resolve(context.Background(), qv, nil)
 	fret := "ok"
 	if ferr != nil {
 		fret = "err"
@@ -352,6 +359,16 @@ func init() {
 				out, kind := runFwd(f[1] == "1", string(unhx(f[2])), vals)
 				c.Emit(l, out)
 				c.Stat("out:" + kind)
+			case len(f) >= 3 && f[0] == "fwdq" && (f[1] == "0" || f[1] == "1"):
+				var vals []string
+				for _, t := range f[3:] {
+					vals = append(vals, string(unhx(t)))
+				}
+				// proxy/udp.go, tcp.go: `q, err := query.New(…); if err != nil { log }` and the query is resolved anyway
+				q, _ := query.New(unhx(f[2]), loopback, loopback)
+				out, kind := runFwdQ(f[1] == "1", q, vals)
+				c.Emit(l, out)
+				c.Stat("outq:" + kind)
 			default:
 				c.Emit(l, "bad-case")
 			}
@@ -366,6 +383,44 @@ func init() {
 		for i := 0; i < c.n; i++ {
 			fc := r.genFwCase(c)
 			runLine(fwCaseLine(fc))
+			if r.Chance(12) && len(fc.name) > 1 && len(fc.name) < 200 && !strings.Contains(fc.name, "..") {
+				// the same name as a WIRE query through query.New: clean, with an EDNS record, and with an
+				// additional section that does not parse (the question is fine: routing must not change)
+				labels := strings.Split(strings.TrimSuffix(fc.name, "."), ".")
+				okl := true
+				for _, l := range labels {
+					if len(l) == 0 || len(l) > 63 {
+						okl = false
+					}
+				}
+				if okl {
+					body := append(wireName(labels...), 0, 1, 0, 1)
+					ar := 0
+					switch r.Intn(4) {
+					case 0:
+						c.Stat("fwdq:plain")
+					case 1:
+						body = append(body, packRR(rrSpec{name: []byte{0}, typ: 41, class: 1232, rdata: packOpts([]optSpec{{code: 10, data: r.Bytes(8)}})})...)
+						ar = 1
+						c.Stat("fwdq:opt")
+					case 2:
+						ar = 1 // ARCOUNT says one record, nothing follows
+						c.Stat("fwdq:missing-additional")
+					default:
+						body = append(body, packRR(rrSpec{name: []byte{0}, typ: 41, class: 1232, rdata: packOpts([]optSpec{{code: 8, data: r.Bytes(6), lenDelta: 40}})})...)
+						ar = 1
+						c.Stat("fwdq:option-overrun")
+					}
+					pl := append(be16(r.Intn(65536)), 1, 0, 0, 1, 0, 0, 0, 0, 0, byte(ar))
+					pl = append(pl, body...)
+					var sb strings.Builder
+					fmt.Fprintf(&sb, "fwdq %s %s", map[bool]string{true: "1", false: "0"}[fc.catch], hx(pl))
+					for _, v := range fc.vals {
+						sb.WriteString(" " + hx([]byte(v)))
+					}
+					runLine(sb.String())
+				}
+			}
 			if r.Chance(30) && len(fc.vals) > 0 {
 				// the same name against one rule's domain directly (Resolver.Match)
 				v := fc.vals[r.Intn(len(fc.vals))]
